@@ -9,6 +9,8 @@ import PoetryVerif.Proofs.MarkerPrint
 import PoetryVerif.Proofs.MarkerPrintChars
 import PoetryVerif.Proofs.MarkerPrintDom
 import PoetryVerif.Proofs.MarkerEval
+import PoetryVerif.Proofs.MarkerPrintPy
+import PoetryVerif.Proofs.PyConvPairFinal
 
 set_option linter.unusedSimpArgs false
 set_option linter.unusedVariables false
@@ -220,5 +222,57 @@ theorem print_parse_quotable {ex : List String} (hE : E.extras = some ex) {m : M
   refine ⟨s, h1, h2, m', h3, h4, ?_⟩
   rw [M.validate_eq_sem E m' (M.good_mono (fun l hl => invLeaf_evaluable hE hl) m' h4)]
   exact congrArg _ h5
+
+/-- **Marker text on the full comparison-operator domain, no hypothesis**: markers over quotable string/`extra`
+leaves, `python_version <op> "X.Y"` and `python_full_version <op> "X.Y.Z"` leaves (`== != < <= > >=`) whose
+`__str__` is a marker text, in an environment of interpreter `X.Y.Z` defining the extras: `str(m)` is parsed by
+the grammar model back to the tree of `m`, `_compact_markers` rebuilds from it a marker of the domain, and that
+marker validates to the truth value of `m`. -/
+theorem print_parse_full {ex : List String} (hX : E.extras = some ex) {X Y Z : Nat} (hE : EnvPy E X Y Z)
+    {m : M} {t : Syn} (hg : M.Good (FullInvLeaf E) m) (h : M.toSyn m = some t) :
+    ∃ s, M.toStr m = .ok s ∧ parseText s = .ok t ∧
+      ∃ m', compactRaw t = .ok m' ∧ M.Good (FullInvLeaf E) m' ∧
+        M.validate E m' = .ok (M.sem (leafEval E) m) := by
+  obtain ⟨s, h1, h2, m', h3, h4, h5⟩ :=
+    M.parseText_toStr (leafSpec_fullInv hX hE (pairSound_py hE)) (printOK_fullInv hX)
+      (fun l hl => lexable_fullInv l hl) hg h
+  refine ⟨s, h1, h2, m', h3, h4, ?_⟩
+  rw [M.validate_eq_sem E m' (M.good_mono (fun l hl => fullInvLeaf_evaluable hX hE hl) m' h4)]
+  exact congrArg _ h5
+
+/-- **Results of `intersect` / `union` on the full comparison-operator domain print and parse back with their
+meaning**: for operands of the domain with a text, the result is Any, Empty, or a marker whose `str()` the grammar
+reads back and `_compact_markers` rebuilds to a marker validating to the conjunction (disjunction) of the
+operands — every fuel, every stack, no unproved hypothesis. -/
+theorem algebra_print_parse_full {ex : List String} (hX : E.extras = some ex) {X Y Z : Nat} (hE : EnvPy E X Y Z)
+    {a b r : M} {isUnion : Bool} (ha : M.Good (FullInvLeaf E) a) (hb : M.Good (FullInvLeaf E) b)
+    (hr : (if isUnion then mUnion fuel stk a b else mIntersect fuel stk a b) = .ok r)
+    {t : Syn} (h : M.toSyn r = some t) :
+    ∃ s, M.toStr r = .ok s ∧ parseText s = .ok t ∧
+      ∃ m', compactRaw t = .ok m' ∧ M.Good (FullInvLeaf E) m' ∧
+        M.validate E m' = .ok (if isUnion then (M.sem (leafEval E) a || M.sem (leafEval E) b)
+          else (M.sem (leafEval E) a && M.sem (leafEval E) b)) := by
+  have S := leafSpec_fullInv hX hE (pairSound_py hE)
+  cases isUnion
+  · simp only [Bool.false_eq_true, if_false] at hr ⊢
+    obtain ⟨g, e⟩ := mIntersect_sound S ha hb hr
+    rw [← e]; exact print_parse_full hX hE g h
+  · simp only [if_true] at hr ⊢
+    obtain ⟨g, e⟩ := mUnion_sound S ha hb hr
+    rw [← e]; exact print_parse_full hX hE g h
+
+/-- `python_version >= "3.8" and sys_platform == "a"` is a marker of the domain with a text -/
+example : M.Good (FullInvLeaf Ex.envAB) (.multi [.leaf (.single (pvLeafOf .ge ">=" 3 8)), .leaf (.single Ex.sA)]) ∧
+    (M.toStr (.multi [.leaf (.single (pvLeafOf .ge ">=" 3 8)), .leaf (.single Ex.sA)])).toOption =
+      some "python_version >= \"3.8\" and sys_platform == \"a\"" := by
+  refine ⟨?_, by decide +kernel⟩
+  simp only [M.good_multi, List.mem_cons, List.mem_nil_iff, or_false, forall_eq_or_imp, forall_eq, M.good_leaf]
+  refine ⟨Or.inr (Or.inl ⟨.ge, ">=", 3, 8, by decide, rfl⟩), Or.inl (Or.inl ⟨?_, by decide, ?_⟩)⟩
+  · exact ⟨rfl, rfl, ⟨"a", rfl⟩, rfl, ⟨"a", .eq, false⟩, rfl, rfl, rfl, rfl, rfl⟩
+  · intro x hx
+    simp [leafAtoms, Leaf.c, Ex.sA, Ex.cA, Generic.GC.atoms, Generic.GS.atoms] at hx; subst hx
+    refine ⟨⟨⟨by decide, ?_⟩, by decide⟩, ?_⟩
+    · intro c hc; simp at hc; subst hc; unfold tokChar; decide
+    · intro c hc; simp at hc; subst hc; decide
 
 end Poetry.C13
